@@ -96,13 +96,16 @@ def toml_val(v):
 
 
 def render_config(values: dict, style: int, pyproject=False) -> str:
-    """style bit0: kebab(0)/snake(1) keys; bit1: flat(0)/sectioned(1); bit2 (sectioned pyproject only): no bare [tool.flowmark] header line"""
+    """style bit3: mixed (flat formatting keys + [file-discovery] section) when the values span both groups; bit0: kebab(0)/snake(1) keys; bit1: flat(0)/sectioned(1); bit2 (sectioned pyproject only): no bare [tool.flowmark] header line"""
     snake, sectioned = style & 1, style & 2
     lines = {"formatting": [], "file-discovery": []}
     for s, v in values.items():
         key = s if snake else KEBAB.get(s, s)
         lines["formatting" if s in FORMATTING else "file-discovery"].append(f"{key} = {toml_val(v)}")
     pre = "tool.flowmark." if pyproject else ""
+    if style & 8 and lines["formatting"] and lines["file-discovery"]:
+        # mixed: the formatting keys flat at the top, the file-discovery keys in their section (both spellings are accepted together)
+        return ("[tool.flowmark]\n" if pyproject else "") + "\n".join(lines["formatting"]) + f"\n[{pre}file-discovery]\n" + "\n".join(lines["file-discovery"]) + "\n"
     if sectioned:
         out = []
         if pyproject and not style & 4:
@@ -191,7 +194,7 @@ def _merge_point(job):
         # "setdef": the config file spells out the built-in default (not expressible for exclude, whose default is "not set")
         cfgvals.update({s: DEFAULT[s] for s, c in ((p["s1"], p["c1"]), (p["s2"], p["c2"])) if c == "setdef" and DEFAULT[s] is not None})
         if cfgvals:
-            open("flowmark.toml", "w").write(render_config(cfgvals, idx % 4))
+            open("flowmark.toml", "w").write(render_config(cfgvals, idx % 16))
         argv = flag_args(p["s1"], p["f1"], idx // 4) + flag_args(p["s2"], p["f2"], idx // 4 + 1)
         if idx % 3 == 0:
             argv = cluster(argv)
